@@ -54,6 +54,9 @@ pub struct ManiaGradualDifficulty {
     strain: Strain,
     diff_objects: Box<[ManiaDifficultyObject]>,
     note_state: NoteState,
+    // Max combo after each object, taken from the same (clock rate
+    // independent) bookkeeping as the non-gradual calculation.
+    combos: Box<[u32]>,
 }
 
 #[derive(Default)]
@@ -84,10 +87,17 @@ impl ManiaGradualDifficulty {
         let clock_rate = difficulty.get_clock_rate();
         let mut params = ObjectParams::new(&map);
 
+        let mut combos = Vec::with_capacity(map.hit_objects.len());
+
         let mania_objects = map
             .hit_objects
             .iter()
-            .map(|h| ManiaObject::new(h, total_columns, &mut params))
+            .map(|h| {
+                let mania_object = ManiaObject::new(h, total_columns, &mut params);
+                combos.push(params.max_combo());
+
+                mania_object
+            })
             .take(take);
 
         let diff_objects = DifficultyValues::create_difficulty_objects(clock_rate, mania_objects);
@@ -99,15 +109,8 @@ impl ManiaGradualDifficulty {
         let objects_is_circle: Box<[_]> =
             map.hit_objects.iter().map(HitObject::is_circle).collect();
 
-        if let Some(h) = map.hit_objects.first() {
-            let hit_object = ManiaObject::new(h, total_columns, &mut params);
-
-            increment_combo_raw(
-                objects_is_circle[0],
-                hit_object.start_time,
-                hit_object.end_time,
-                &mut note_state,
-            );
+        if let Some(combo) = combos.first() {
+            increment_combo(objects_is_circle[0], *combo, &mut note_state);
         }
 
         Ok(Self {
@@ -118,6 +121,7 @@ impl ManiaGradualDifficulty {
             strain,
             diff_objects,
             note_state,
+            combos: combos.into_boxed_slice(),
         })
     }
 }
@@ -135,12 +139,7 @@ impl Iterator for ManiaGradualDifficulty {
             self.strain.process(curr, &self.diff_objects);
 
             let is_circle = self.objects_is_circle[self.idx];
-            increment_combo(
-                is_circle,
-                curr,
-                &mut self.note_state,
-                self.difficulty.get_clock_rate(),
-            );
+            increment_combo(is_circle, self.combos[self.idx], &mut self.note_state);
         } else if self.objects_is_circle.is_empty() {
             return None;
         }
@@ -177,10 +176,8 @@ impl Iterator for ManiaGradualDifficulty {
             self.idx += 1;
         }
 
-        let clock_rate = self.difficulty.get_clock_rate();
-
         for (curr, is_circle) in skip_iter.take(take) {
-            increment_combo(*is_circle, curr, &mut self.note_state, clock_rate);
+            increment_combo(*is_circle, self.combos[self.idx], &mut self.note_state);
             self.strain.process(curr, &self.diff_objects);
             self.idx += 1;
         }
@@ -199,25 +196,10 @@ impl ExactSizeIterator for ManiaGradualDifficulty {
     }
 }
 
-fn increment_combo(
-    is_circle: bool,
-    diff_obj: &ManiaDifficultyObject,
-    state: &mut NoteState,
-    clock_rate: f64,
-) {
-    increment_combo_raw(
-        is_circle,
-        diff_obj.start_time * clock_rate,
-        diff_obj.end_time * clock_rate,
-        state,
-    );
-}
+fn increment_combo(is_circle: bool, combo: u32, state: &mut NoteState) {
+    state.curr_combo = combo;
 
-fn increment_combo_raw(is_circle: bool, start_time: f64, end_time: f64, state: &mut NoteState) {
-    if is_circle {
-        state.curr_combo += 1;
-    } else {
-        state.curr_combo += 1 + ((end_time - start_time) / 100.0) as u32;
+    if !is_circle {
         state.n_hold_notes += 1;
     }
 }
